@@ -442,11 +442,12 @@ func (e *Engine) builtinAppend(st *State, s, t Val, resT types.Type) Val {
 	st.assume(fmt.Sprintf("(=> (not %s) (forall ((i Int)) (! (=> (not (and (<= (+ %s %s) i) (< i (+ %s %s)))) (= (select %s i) (select %s i))) :pattern ((select %s i)))))",
 		grow, soff, slen, soff, nlen, row, oldrow, row))
 	rref := ite(grow, newref, sref)
-	if tlen == "1" && es == "Int" {
+	if tlen == "1" && (es == "Int" || es == "Str") {
 		// the element set grows by exactly the appended element (valid fact about append; saves an induction)
-		reg.declareFun("elems!Int", []string{"(Array Int Int)", "Int", "Int"}, "(Array Int Bool)")
+		fn := "elems!" + es
+		reg.declareFun(fn, []string{fmt.Sprintf("(Array Int %s)", es), "Int", "Int"}, fmt.Sprintf("(Array %s Bool)", es))
 		e.assumptions["append(s, x): elems(result) = elems(s) + {x} (trusted lemma about the ghost element set)"] = true
-		st.assume(fmt.Sprintf("(= (elems!Int %s %s %s) (store (elems!Int %s %s %s) %s true))", row, roff, nlen, oldrow, soff, slen, tArr("0")))
+		st.assume(fmt.Sprintf("(= (%s %s %s %s) (store (%s %s %s %s) %s true))", fn, row, roff, nlen, fn, oldrow, soff, slen, tArr("0")))
 	}
 	st.setHeap(hn, hs, store(h, rref, row))
 	res := mkSlice(rref, roff, nlen, ite(grow, ncap, scap))
